@@ -63,6 +63,12 @@ SYSTEMS = [
  ("symbolic: complex coupling constant g (a plain Symbol) and a symbolic frequency", [('b', 'a')],
   lambda d: W_ * Dagger(d['a']) * d['a'] + Q(1, 3) * (Dagger(d['a']) * d['a'])**2,
   lambda d: G * d['a'] + sympy.conjugate(G) * Dagger(d['a']) + G**2 * d['a']**2 + sympy.conjugate(G)**2 * Dagger(d['a'])**2),
+ ("matrix-valued: dispersive shift (the levels depend differently on N), number-changing terms with the same shift on both diagonal entries", [('b', 'a')],
+  lambda d: sympy.Matrix([[2 * Dagger(d['a']) * d['a'] + Q(1, 3) * Dagger(d['a']) * d['a'] + Q(1, 2), 0], [0, 2 * Dagger(d['a']) * d['a'] - Q(1, 3) * Dagger(d['a']) * d['a']]]),
+  lambda d: sympy.Matrix([[d['a'] + Dagger(d['a']), Q(1, 2)], [Q(1, 2), -(d['a'] + Dagger(d['a']))]])),
+ ("Floquet-like: ladder mode + spin + fermion, a drive whose strength depends on the fermion occupation, a longitudinal drive", [('l', 'm'), ('s', 's'), ('f', 'c')],
+  lambda d: 2 * NumberOperator(d['m']) + Q(3, 2) * Dagger(d['s']) * d['s'] + 5 * Dagger(d['c']) * d['c'] + Q(1, 7) * Dagger(d['s']) * d['s'] * Dagger(d['c']) * d['c'],
+  lambda d: (1 + Dagger(d['c']) * d['c'] / 2) * (Dagger(d['s']) * d['m'] + d['s'] * Dagger(d['m'])) + Q(1, 3) * (2 * Dagger(d['s']) * d['s'] - 1) * (d['m'] + Dagger(d['m']))),
  ("matrix-valued: different diagonal entries, two subspaces", [('b', 'a')],
   lambda d: sympy.Matrix([[2 * Dagger(d['a']) * d['a'], 0], [0, 2 * Dagger(d['a']) * d['a'] + Q(7, 3)]]),
   lambda d: sympy.Matrix([[d['a'] + Dagger(d['a']), 1 + Dagger(d['a'])], [1 + d['a'], d['a'] + Dagger(d['a'])]])),
@@ -72,10 +78,12 @@ PRIMES = [2, 3, 5, 7, 11, 13]
 def random_system(rnd):
     """a generated system: 1-3 modes of mixed statistics, H_0 a polynomial in the number operators with rational coefficients (anharmonic, with
     number-number couplings), the perturbation W + W^dagger for a random polynomial W of degree <= 3 in the generators (complex coefficients at times)"""
-    kinds = rnd.choice([['b'], ['b', 'b'], ['b', 'f'], ['f', 'f'], ['b', 's'], ['s', 'f'], ['l'], ['l', 'f'], ['f', 'f', 'f'], ['b', 'f', 'f'], ['s', 's'], ['l', 'b']])
+    kinds = rnd.choice([['b'], ['b', 'b'], ['b', 'f'], ['f', 'f'], ['b', 's'], ['s', 'f'], ['l'], ['l', 'f'], ['f', 'f', 'f'], ['b', 'f', 'f'], ['s', 's'], ['l', 'b'],
+                        ['l', 's', 'f'], ['l', 's'], ['l', 'f', 'f'], ['b', 's', 'f']])
     names = ['a', 'b', 'c', 'd']; spec = [(k, names[i]) for i, k in enumerate(kinds)]
     cplx = rnd.random() < 0.3
     w = rnd.sample(PRIMES, len(spec)); al = [Q(1, rnd.choice([3, 7, 11])) for _ in spec]; cross = Q(1, rnd.choice([5, 13, 17])) if rnd.random() < 0.6 else 0
+    cross2 = Q(1, rnd.choice([23, 29])) if rnd.random() < 0.6 else 0
     mons = []
     for _ in range(rnd.randint(2, 4)):
         word = [(rnd.randrange(len(spec)), rnd.random() < 0.5) for _ in range(rnd.randint(1, 3))]
@@ -89,6 +97,7 @@ def random_system(rnd):
         for (k, n), wi, ai in zip(spec, w, al):
             h = h + wi * num(d, k, n) + (ai * num(d, k, n) ** 2 if k in 'bl' else 0)
         if cross and len(spec) >= 2: h = h + cross * num(d, *spec[0]) * num(d, *spec[1])
+        if cross2 and len(spec) >= 3: h = h + cross2 * num(d, *spec[1]) * num(d, *spec[2]) + Q(1, 19) * num(d, *spec[0]) * num(d, *spec[2])
         return h
     def Vf(d, hermitian_V=True):
         W = 0
@@ -149,6 +158,7 @@ def run(label, spec, H0f, Vf, maxn, cut, patterns=None, hermitian=True):
     H0m = mat(H0); Vm = mat(V); E = np.diag(H0m).real
     elim = np.abs(E.reshape(-1, 1) - E) > 1e-9
     if label.startswith("generated") and (~elim).sum() > len(E): return None       # two Fock states share an unperturbed energy: outside the quantifier
+    if label.startswith(("matrix-valued: dispersive", "Floquet-like")): assert (~elim).sum() == len(E), "the fixed system has two equal Fock levels"
     if patterns is not None:
         sel = np.zeros_like(elim)
         for i_, s_ in enumerate(states_all):
